@@ -201,6 +201,11 @@ func ruleEqFields(c *Ctx) {
 				c.R.Anchor(name)
 				continue
 			}
+			if i := strings.LastIndex(fn, "."); fd.Name.Name != fn[i+1:] || listed[fd] {
+				// a renamed / merged successor (equalsTuple + equalsFun -> equalsSeq): its parameters are no longer the two
+				// operands but components of them; it is reached, with its parameters bound, from the call sites below
+				continue
+			}
 			listed[fd] = true
 			work = append(work, job{fd, name, nil, 0})
 		}
@@ -723,15 +728,7 @@ func ruleKindSwitch(c *Ctx) {
 			c.R.Anchor(name)
 			continue
 		}
-		var sw *ast.SwitchStmt
-		inspectNoLit(fd.Body, func(x ast.Node) bool {
-			if s, ok := x.(*ast.SwitchStmt); ok && sw == nil && s.Tag != nil {
-				if tt := c.typeOf(s.Tag); tt != nil && types.Identical(tt, kindT.Type()) {
-					sw = s
-				}
-			}
-			return true
-		})
+		sw, _ := c.kindSwitchOf(fd, 0)
 		if sw == nil {
 			c.R.Bad(name, "switch over Kind", fd.Pos(), "not found")
 			continue
@@ -1662,19 +1659,13 @@ func (c *Ctx) un7() {
 			c.R.Anchor("types." + fn)
 			continue
 		}
-		self := c.calleeObjOfDecl(fd)
-		var sw *ast.SwitchStmt
-		inspectNoLit(fd.Body, func(x ast.Node) bool {
-			if s, ok := x.(*ast.SwitchStmt); ok && sw == nil && s.Tag != nil && strings.HasSuffix(src(s.Tag), "Kind") {
-				sw = s
-			}
-			return true
-		})
+		sw, owner := c.kindSwitchOf(fd, 0)
 		if sw == nil {
 			c.R.Unk("types."+fn, "UN-7 switch over Kind", fd.Pos(), "no switch over the kind found")
 			continue
 		}
-		pr := newPathResolver(c, fd)
+		self := c.calleeObjOfDecl(owner)
+		pr := newPathResolver(c, owner)
 		cases := c.switchCasesByConst(sw)
 		var kinds []string
 		for k := range want {
@@ -1702,6 +1693,81 @@ func (c *Ctx) un7() {
 				}
 			}
 			c.R.Check(len(missing) == 0, "types."+fn, "UN-7 arm "+k+" recurses into every component", cc.Pos(), "recursive calls cover "+strings.Join(want[k], ", "), "the arm does not apply "+fn+" to component(s) "+strings.Join(missing, ", ")+" of the type: a type variable occurring there escapes the occurs check / substitution / groundness test (a := map[a, num] becomes a legal binding)")
+		}
+		// Boolean walkers combine the components of a composite the way their leaves say: a walker whose primitive arm answers
+		// true is universal ("free of": every component must be, so `&&`, `if !rec { return false }`, `return true` at the end),
+		// one whose primitive arm answers false is existential ("occurs": some component, so `||`, `if rec { return true }`,
+		// `return false`). A composite arm that mixes the two (occurs(Key) && occurs(Val)) forgets a component.
+		if prim := cases["types.KNum"]; prim != nil && len(prim.Body) == 1 {
+			r, isRet := prim.Body[0].(*ast.ReturnStmt)
+			if !isRet || len(r.Results) != 1 {
+				continue
+			}
+			cv := c.constOf(r.Results[0])
+			if cv == nil || cv.Kind() != constant.Bool {
+				continue
+			}
+			universal := constant.BoolVal(cv)
+			isRec := func(e ast.Expr) bool {
+				found := false
+				ast.Inspect(e, func(x ast.Node) bool {
+					if ce, ok := x.(*ast.CallExpr); ok && c.calleeObj(ce) == self {
+						found = true
+					}
+					return !found
+				})
+				return found
+			}
+			for _, k := range kinds {
+				cc := cases[k]
+				if cc == nil {
+					continue
+				}
+				ok, why := true, ""
+				ast.Inspect(&ast.BlockStmt{List: cc.Body}, func(x ast.Node) bool {
+					switch n := x.(type) {
+					case *ast.BinaryExpr:
+						if (n.Op == token.LAND || n.Op == token.LOR) && isRec(n.X) && isRec(n.Y) {
+							if (n.Op == token.LAND) != universal {
+								ok, why = false, "components combined with "+n.Op.String()
+							}
+						}
+					case *ast.IfStmt:
+						if !isRec(n.Cond) || len(n.Body.List) != 1 {
+							return true
+						}
+						r, isRet := n.Body.List[0].(*ast.ReturnStmt)
+						if !isRet || len(r.Results) != 1 {
+							return true
+						}
+						rv := c.constOf(r.Results[0])
+						if rv == nil || rv.Kind() != constant.Bool {
+							return true
+						}
+						neg := false
+						if u, isU := unparen(n.Cond).(*ast.UnaryExpr); isU && u.Op == token.NOT {
+							neg = true
+						}
+						// universal: `if !rec { return false }`; existential: `if rec { return true }`
+						if neg != universal || constant.BoolVal(rv) == universal {
+							ok, why = false, "early exit `if "+src(n.Cond)+" { return "+src(r.Results[0])+" }`"
+						}
+					}
+					return true
+				})
+				for _, st := range cc.Body {
+					if r, isRet := st.(*ast.ReturnStmt); isRet && len(r.Results) == 1 {
+						if rv := c.constOf(r.Results[0]); rv != nil && rv.Kind() == constant.Bool && constant.BoolVal(rv) != universal {
+							ok, why = false, "the arm ends in `return "+src(r.Results[0])+"`"
+						}
+					}
+				}
+				pol := "existential (||)"
+				if universal {
+					pol = "universal (&&)"
+				}
+				c.R.Check(ok, "types."+fn, "UN-7 arm "+k+" combines its components as the leaves do", cc.Pos(), pol, why+" in a walker whose primitive arm makes it "+pol+": a type variable in one of the components is overlooked (map[str, a] counts as ground)")
+			}
 		}
 	}
 }
@@ -1964,4 +2030,64 @@ func (c *Ctx) eqPairing(name string, fd *ast.FuncDecl, call *ast.CallExpr, pr *p
 	case "bad":
 		c.R.Bad(name, desc, call.Pos(), "%s", why)
 	}
+}
+
+
+// kindSwitchOf finds the switch over a type's Kind that fd consists of: in fd itself, or — when fd merely delegates
+// (`return !occurs(ty, pred)`: two walkers merged into one traversal) — in the same-package function that is handed fd's
+// own type parameter. Returns the switch and the function that holds it (the recursion target of its arms).
+func (c *Ctx) kindSwitchOf(fd *ast.FuncDecl, depth int) (*ast.SwitchStmt, *ast.FuncDecl) {
+	var sw *ast.SwitchStmt
+	inspectNoLit(fd.Body, func(x ast.Node) bool {
+		if s, ok := x.(*ast.SwitchStmt); ok && sw == nil && s.Tag != nil {
+			if tt := c.typeOf(s.Tag); tt != nil && typeStr(tt) == "types.Kind" {
+				sw = s
+			}
+		}
+		return true
+	})
+	if sw != nil || depth >= 2 {
+		return sw, fd
+	}
+	params := map[types.Object]bool{}
+	if fd.Type.Params != nil {
+		for _, fl := range fd.Type.Params.List {
+			for _, n := range fl.Names {
+				if o := c.objOf(n); o != nil && strings.HasSuffix(typeStr(o.Type()), "types.Type") {
+					params[o] = true
+				}
+			}
+		}
+	}
+	if fd.Recv != nil {
+		for _, fl := range fd.Recv.List {
+			for _, n := range fl.Names {
+				if o := c.objOf(n); o != nil {
+					params[o] = true
+				}
+			}
+		}
+	}
+	self := c.calleeObjOfDecl(fd)
+	for _, call := range c.calls(fd.Body) {
+		fn, ok := c.calleeObj(call).(*types.Func)
+		if !ok || fn == self || fn.Pkg() == nil || self == nil || fn.Pkg() != self.Pkg() {
+			continue
+		}
+		passes := false
+		for _, a := range call.Args {
+			if id, ok := unparen(a).(*ast.Ident); ok && params[c.objOf(id)] {
+				passes = true
+			}
+		}
+		if !passes {
+			continue
+		}
+		if hd := c.declOf(fn); hd != nil && hd.Body != nil {
+			if s, owner := c.kindSwitchOf(hd, depth+1); s != nil {
+				return s, owner
+			}
+		}
+	}
+	return nil, fd
 }
